@@ -19,6 +19,7 @@ type ruleT struct {
 	pattern string
 	body    string
 	resp    string
+	nested  []ruleT // additional_bindings of an additional binding (op nf only)
 }
 
 type methodT struct {
@@ -86,7 +87,15 @@ func (r ruleT) enc() string {
 	if k == "c" {
 		k = "c:" + tok(r.verb)
 	}
-	return k + "@" + tok(r.pattern) + "@" + tok(r.body) + "@" + tok(r.resp)
+	out := k + "@" + tok(r.pattern) + "@" + tok(r.body) + "@" + tok(r.resp)
+	if len(r.nested) > 0 {
+		ns := make([]string, len(r.nested))
+		for i, n := range r.nested {
+			ns[i] = strings.ReplaceAll(n.enc(), "@", "$")
+		}
+		out += "@" + strings.Join(ns, "%")
+	}
+	return out
 }
 
 func (m methodT) enc() string {
@@ -153,10 +162,15 @@ func mapS(l []string, f func(string) string) []string {
 
 func decRule(s string) ruleT {
 	p := strings.Split(s, "@")
-	if len(p) != 4 {
+	if len(p) != 4 && len(p) != 5 {
 		panic("rule: " + s)
 	}
 	r := ruleT{kind: p[0], pattern: untok(p[1]), body: untok(p[2]), resp: untok(p[3])}
+	if len(p) == 5 {
+		for _, n := range splitL(p[4], "%") {
+			r.nested = append(r.nested, decRule(strings.ReplaceAll(n, "$", "@")))
+		}
+	}
 	if strings.HasPrefix(r.kind, "c:") {
 		r.verb = untok(r.kind[2:])
 		r.kind = "c"
@@ -270,6 +284,9 @@ func (r ruleT) pb() *annotations.HttpRule {
 	case "none":
 	default:
 		panic("rule kind " + r.kind)
+	}
+	for _, n := range r.nested {
+		h.AdditionalBindings = append(h.AdditionalBindings, n.pb())
 	}
 	return h
 }
